@@ -2108,7 +2108,8 @@ impl LineBuf {
 						let byte_pos = self.index_byte_pos(insert_idx);
 						self.buffer.insert_str(byte_pos, window);
 					}
-
+					// The next row is looked up in the text as it is now
+					self.update_graphemes();
 				}
 			}
 			RegisterContent::Empty => {}
